@@ -173,3 +173,34 @@ func VerifC03UnrotatedText(blocks []map[string]VerifC03Cmi, col string, keys map
 	}
 	return res
 }
+
+// the micro index one block of an open segment holds for a column: Kind 0 none, 1 bloom, 2 range
+type VerifC03BlockRange struct {
+	Seg   string
+	Block int
+	Kind  int
+	Range structs.Numbers
+}
+
+// VerifC03UnrotatedRanges: what the unrotated segment info (the structure DoCMICheckForUnrotated consults) holds for
+// column col in every block of every open segment, in block order.
+func VerifC03UnrotatedRanges(col string) []VerifC03BlockRange {
+	UnrotatedInfoLock.RLock()
+	defer UnrotatedInfoLock.RUnlock()
+	var out []VerifC03BlockRange
+	for seg, usi := range AllUnrotatedSegmentInfo {
+		for b, cmis := range usi.unrotatedBlockCmis {
+			r := VerifC03BlockRange{Seg: seg, Block: b}
+			if c, ok := cmis[col]; ok && c != nil {
+				if c.Ranges != nil && c.Ranges[col] != nil {
+					r.Kind = 2
+					r.Range = *c.Ranges[col]
+				} else if c.Bf != nil {
+					r.Kind = 1
+				}
+			}
+			out = append(out, r)
+		}
+	}
+	return out
+}
